@@ -123,6 +123,7 @@ def search(ctx, suspects, budget):
         for f in sorted(os.listdir(d)):
             if f.endswith(".json"):
                 todo.append(json.load(open(os.path.join(d, f)))["case"])
+    todo += [{"steps": st, "corr": co} for st, co in CL.typed_family()]
     n = 0
     while len(out) < 3:
         change = None
